@@ -532,6 +532,7 @@ func runC14(c *Ctx) {
 func ConstIntOK(v ssa.Value) (int64, bool) { return ConstInt(v) }
 
 var c14Canaries = []Canary{
+	{Name: "r7-delayed-pointer-copy", ExpectKey: "C14.R4#delayed:pointer-remembered-as-decoded", Edits: []Edit{{File: "commands/command_filter_process.go", Find: "\t\t\t\tn, delayed, ptr, err = delayedSmudge(gitfilter, s, w, req.Payload, q, req.Header[\"pathname\"], skip, filter)\n\n\t\t\t\tif delayed {\n\t\t\t\t\tptrs[req.Header[\"pathname\"]] = ptr\n\t\t\t\t}\n\t\t\t} else {\n\t\t\t\ts.WriteStatus(statusFromErr(nil))\n", Repl: "\t\t\t\tn, delayed, ptr, err = delayedSmudge(gitfilter, s, w, req.Payload, q, req.Header[\"pathname\"], skip, filter)\n\n\t\t\t\tif delayed {\n\t\t\t\t\t// Keep a private copy: the pointer handed to the\n\t\t\t\t\t// smudge code is modified while an object is read\n\t\t\t\t\t// back (its size is filled in), and all that is\n\t\t\t\t\t// needed to re-encode it later is the OID and size.\n\t\t\t\t\tptrs[req.Header[\"pathname\"]] = lfs.NewPointer(ptr.Oid, ptr.Size, nil)\n\t\t\t\t}\n\t\t\t} else {\n\t\t\t\ts.WriteStatus(statusFromErr(nil))\n"}}},
 	{Name: "r6-availability-channel-closed-twice", ExpectKey: "C14.R5#availability-channel-closed-once", Edits: []Edit{{File: "commands/command_filter_process.go", Find: "\n\twatch := q.Watch()\n\n\t// pending is used to keep track of an ordered list of available\n\t// `*tq.Transfer`'s that cannot be written to \"available\" without\n\t// blocking.\n", Repl: "\n\twatch := q.Watch()\n\n\t// However we leave, \"available\" must be closed so that the reader in\n\t// list_available_blobs learns that the queue is done.\n\tdefer close(available)\n\n\t// pending is used to keep track of an ordered list of available\n\t// `*tq.Transfer`'s that cannot be written to \"available\" without\n\t// blocking.\n"}, {File: "commands/command_filter_process.go", Find: "\t\t\t\t// If watch is closed, the \"tq\" is done, and\n\t\t\t\t// there are no items on the buffer.  Return\n\t\t\t\t// immediately.\n\t\t\t\tclose(available)\n\t\t\t\treturn\n\t\t\t}\n\n", Repl: "\t\t\t\t// If watch is closed, the \"tq\" is done, and\n\t\t\t\t// there are no items on the buffer.  Return\n\t\t\t\t// immediately.\n\t\t\t\treturn\n\t\t\t}\n\n"}}},
 	{Name: "r5-full-buffer-is-eof", ExpectKey: "C14.R1#incomingOrCached", Edits: []Edit{{File: "commands/command_filter_process.go", Find: "\tif err == io.EOF {\n\t\treturn bytes.NewReader(buf), nil\n\t}\n\treturn io.MultiReader(bytes.NewReader(buf), r), err", Repl: "\tif n < cap(buf) {\n\t\treturn bytes.NewReader(buf), nil\n\t}\n\treturn io.MultiReader(bytes.NewReader(buf), r), err"}}},
 	{Name: "r4-header-trimmed", ExpectKey: "C14.R1#request-header", Edits: []Edit{{File: "git/filter_process_scanner.go", Find: "req.Header[v[0]] = v[1]", Repl: "req.Header[v[0]] = strings.TrimSpace(v[1])"}}},
